@@ -107,6 +107,10 @@ def _ap_insub(st, i, out):
     out.append(('lit', 'sb' + _fmt_int(2) + _fmt_int(i) + '\r\n'))
 
 
+def _ap_deep(st, i, out):
+    out.append(('lit', 'sc' + _fmt_int(3) + _fmt_int(i) + '\r\n'))
+
+
 def _ap_sub(st, i, out):
     st['a2'] = 4 + i
 
@@ -150,8 +154,18 @@ FORMS = [
     Form('gsb', 'stmt', _L('GOSUB g@'), ('gosub', 1, 0),
          gosub=_L('g@:', 'y@% = FX', 'RETURN'),
          apply=_set(y=2), skip=_none),
-    Form('col', 'stmt', _L('y@% = 1: x@% = FX: z@% = 3'), ('main', 0, 1),
+    # re-executing the whole line instead of the statement shows in y and z
+    Form('col', 'stmt', _L('y@% = y@% + 1: x@% = FX: z@% = z@% + 3'), ('main', 0, 1),
          apply=_set(y=1, x=2, z=3), skip=_set(y=1, z=3)),
+    # the failing statement is nested in a block (the resume target is the
+    # innermost statement, not the block)
+    Form('inif', 'stmt', _L('IF b@% >= 0 THEN', 'x@% = FX', 'z@% = 4', 'END IF'), ('main', 1, 0),
+         apply=_set(x=2, z=4), skip=_set(z=4)),
+    Form('infor', 'stmt', _L('FOR k@% = 1 TO 1', 'x@% = x@% + FX', 'NEXT'), ('main', 1, 0),
+         apply=_set(x=2, k=2), skip=_set(k=2)),
+    # call chain of depth two
+    Form('deep', 'proc', _L('CALL sc(j@%, d@%, v@%, c@%, @)'), ('proc:fb', 0, 0),
+         apply=_ap_deep, skip=_none),
 ]
 FORM = {f.name: f for f in FORMS}
 FORM_NAMES = [f.name for f in FORMS]
@@ -174,7 +188,11 @@ PRINT "se"; n%
 END SUB
 FUNCTION fe%(n%)
 fe% = n% * 2
-END FUNCTION'''.split('\n')
+END FUNCTION
+SUB sc(j%, d%, v%, c%, t%)
+u% = 1 + fb%(j%, d%, v%, c%)
+PRINT "sc"; u%; t%
+END SUB'''.split('\n')
 PROC_FAIL_LINE = {'sb': 7, 'fb': 11}     # index into PROCS of the failing statement
 
 VARS_INT = ['x', 'y', 'z', 'k', 'r']
@@ -413,7 +431,12 @@ class Compiled:
     def __init__(self, skel, opt):
         self.skel = skel
         self.opt = opt
-        r = impl.compile_text(skel.src, opt, True, want_listing=False)
+        r = impl.compile_text(skel.src, opt, True, limit=120.0, want_listing=False)
+        for _ in range(2):
+            if r.kind != 'timeout':
+                break
+            # a wall-clock limit on a loaded machine says nothing about qbee
+            r = impl.compile_text(skel.src, opt, True, limit=300.0, want_listing=False)
         self.result = r
         self.ok = r.ok
         if not r.ok:
@@ -475,20 +498,29 @@ class Monitor:
         self.seq = []          # (tag, depth, (hs, hm, hd)|None)
         self.d0 = {}           # slot -> depth at the latest arrival at its failing statement
         self.last_f = None
+        self.cur_s = None
         self.handler = []      # (slot, depth at entry, d0)
         self.cap = cap
         self.repaired = 0
+        self.repaired_slots = []   # slot whose residue was removed, per removal
 
     def pre(self, cpu):
         tags = self.points.get(cpu.pc)
         if tags is None:
             return
         depth = len(cpu.stack)
+        prev_f = self.last_f       # the body statement entered before this arrival
+        ftags = [tag for tag in tags if tag[0] == 'F']
         for tag in tags:
-            t = tag[0]
-            if t == 'F':
-                self.d0[tag[1]] = depth
-                self.last_f = tag[1]
+            if tag[0] == 'S':
+                self.cur_s = tag[1]
+        for tag in ftags:
+            # two body statements that call the same procedure share the
+            # failing statement inside it: it belongs to the one entered last
+            if len(ftags) > 1 and tag[1] != self.cur_s:
+                continue
+            self.d0[tag[1]] = depth
+            self.last_f = tag[1]
         for tag in tags:
             t = tag[0]
             if t == 'H':
@@ -496,6 +528,7 @@ class Monitor:
                 if self.repair and d0 is not None and depth > d0:
                     del cpu.stack[d0:]
                     self.repaired += 1
+                    self.repaired_slots.append(self.last_f)
                     depth = d0
                 self.handler.append((self.last_f, depth, d0))
             elif t == 'X':
@@ -503,6 +536,7 @@ class Monitor:
                 if self.repair and self.last_f == tag[1] and d0 is not None and depth > d0:
                     del cpu.stack[d0:]
                     self.repaired += 1
+                    self.repaired_slots.append(tag[1])
                     depth = d0
         if len(self.seq) >= self.cap:
             return
@@ -511,6 +545,7 @@ class Monitor:
                 if self.repair and self.seq and depth > self.seq[0][1]:
                     del cpu.stack[self.seq[0][1]:]
                     self.repaired += 1
+                    self.repaired_slots.append(prev_f)
                     depth = self.seq[0][1]
                 hs, hm, hd = mem_parts(cpu)
                 self.seq.append((tag, depth, (_h(hs), _h(hm), _h(hd))))
